@@ -758,6 +758,23 @@ func runC09(res *Result, tier string, seed int64, replay string) {
 					res.Count("cell=holds")
 				}
 			}
+			// several classes, the LATER one defining the attribute with an empty value: the last definition wins at the class
+			// level (Resolve.classValue), it is empty, so the class level supplies nothing and the tag default / mj-all is used; in
+			// the other order the non-empty class value wins
+			if attr != "name" {
+				noop(withHead(func(at, d *Node) {
+					at.Kids = append(at.Kids, mk("mj-class", "name", "m1", attr, v1), mk("mj-class", "name", "m2", attr, ""), mk(tag, attr, v2))
+					find(d).Set("mj-class", "m1 m2")
+				}), find, attr, v2, "mj-class(later-empty)>tag-default", informative)
+				noop(withHead(func(at, d *Node) {
+					at.Kids = append(at.Kids, mk("mj-class", "name", "m1", attr, v1), mk("mj-class", "name", "m2", attr, ""), mk("mj-all", attr, v2))
+					find(d).Set("mj-class", "m1 m2")
+				}), find, attr, v2, "mj-class(later-empty)>mj-all", informative)
+				noop(withHead(func(at, d *Node) {
+					at.Kids = append(at.Kids, mk("mj-class", "name", "m1", attr, v1), mk("mj-class", "name", "m2", attr, ""), mk(tag, attr, v2))
+					find(d).Set("mj-class", "m2 m1")
+				}), find, attr, v1, "mj-class(earlier-empty)>tag-default", informative)
+			}
 			// three levels at once: the class wins over the tag default and over mj-all — also when mj-all carries the very value
 			// of the class (a store that drops "redundant" entries must not fall through to the level in between), and with three
 			// different values
